@@ -24,6 +24,7 @@ package session
 //
 //	workers queue up behind the mutex and run their critical sections back to back)
 //	y<p>    (each worker yields before an operation with probability p/8)
+//	x<n>    (optional, last) repeat the scenario n times; the histories are joined with " | "
 //
 // A concurrent case prints the recorded history: one token <thread>:<index>:<inv>:<res>:<result> per
 // operation; inv/res are taken from one global atomic counter immediately before the call and
@@ -186,12 +187,29 @@ func c17Seq(f []string) string {
 	return strings.Join(res, " ")
 }
 
+var c17Hangs int
+
 type c17Rec struct {
 	inv, res int64
 	out      string
 }
 
+// x<n> in the flags: run the scenario n times on fresh registries; histories are joined with " | "
 func c17Conc(f []string, seed int64) string {
+	reps := 1
+	if i := strings.IndexByte(f[1], 'x'); i >= 0 {
+		if n, err := strconv.Atoi(f[1][i+1:]); err == nil && n > 0 {
+			reps = n
+		}
+	}
+	var outs []string
+	for i := 0; i < reps; i++ {
+		outs = append(outs, c17ConcOnce(f, seed+int64(i)*104729))
+	}
+	return strings.Join(outs, " | ")
+}
+
+func c17ConcOnce(f []string, seed int64) string {
 	flags := f[1]
 	disturb := strings.Contains(flags, "d1")
 	yieldP := 0
@@ -285,8 +303,9 @@ func c17Conc(f []string, seed int64) string {
 	go func() { done.Wait(); close(fin) }()
 	select {
 	case <-fin:
-	case <-time.After(20 * time.Second):
+	case <-time.After(5 * time.Second):
 		atomic.StoreInt32(&stop, 1)
+		c17Hangs++
 		return "hang"
 	}
 	atomic.StoreInt32(&stop, 1)
@@ -337,9 +356,30 @@ func TestVerifC17(t *testing.T) {
 				fmt.Fprintln(w, "empty")
 				return
 			}
+			if c17Hangs >= 5 {
+				// every hang costs its full timeout and leaks goroutines: stop running cases
+				fmt.Fprintln(w, "hang-skipped")
+				return
+			}
 			switch f[0] {
 			case "seq":
-				fmt.Fprintln(w, c17Seq(f))
+				// watchdog: a method that returns without unlocking blocks the next call for ever
+				ch := make(chan string, 1)
+				go func() {
+					defer func() {
+						if e := recover(); e != nil {
+							ch <- "panic harness: " + strings.ReplaceAll(fmt.Sprint(e), "\n", " ")
+						}
+					}()
+					ch <- c17Seq(f)
+				}()
+				select {
+				case o := <-ch:
+					fmt.Fprintln(w, o)
+				case <-time.After(1 * time.Second):
+					c17Hangs++
+					fmt.Fprintln(w, "hang")
+				}
 			case "conc", "rconc":
 				fmt.Fprintln(w, c17Conc(f, seed*7919+lineNo))
 			default:
